@@ -387,6 +387,11 @@ structure TimeCfg where
   dtMillis : Bool
 deriving Repr, DecidableEq
 
+/-- the tree as shipped at the pinned commit -/
+def TimeCfg.shipped : TimeCfg := { tdExact := false, dtExact := false, dtMillis := false }
+/-- the tree after the `fix:` commits B and C -/
+def TimeCfg.repaired : TimeCfg := { tdExact := true, dtExact := true, dtMillis := true }
+
 /-- round-half-even of `us / 1000` in integer arithmetic -/
 def msOfMicrosExact (us : Int) : Int :=
   let q := us / 1000
